@@ -1,5 +1,6 @@
 //! Independent transcriptions of the published definitions (generic over `Num`, so they run symbolically and natively).
 pub mod cie;
+pub mod ciede2000;
 pub mod hexcone;
 pub mod oklab;
 pub mod rgbspace;
